@@ -101,32 +101,43 @@ def _run_cvc5(text, timeout_ms):
 
 
 def _job(args):
-    """Portfolio: z3 with a short budget first (almost every obligation is discharged in milliseconds), then cvc5
-    on the same SMT-LIB text, then z3 again with the full budget and other random seeds."""
+    """Portfolio.  z3 through the API with a short budget (almost every obligation is discharged in milliseconds), then
+    the z3 command-line front end (its default tactic pipeline decides some quantified queries the plain SMT core does
+    not; it is also the only way to get a hard time limit), then cvc5 on the same SMT-LIB text, then the z3 command
+    line again with the full budget.  Queries over sequences skip the in-process attempt (soft timeouts can be ignored
+    there)."""
     name, text, cover, timeout_ms, use_cvc5, prefer = args
     total = 0.0
+    seqq = "seq." in text
+    quick = min(timeout_ms, 4000)
     if prefer == "cvc5":
         r, info, dt = _run_cvc5(text, timeout_ms)
         total += dt
         if r in ("sat", "unsat"):
             return (name, r, info, total, "cvc5")
-    quick = min(timeout_ms, 4000)
-    r, info, dt = _z3(text, quick)
+    r, info = "unknown", ""
+    if not seqq:
+        r, info, dt = _run_z3(text, quick)
+        total += dt
+        if r in ("sat", "unsat"):
+            return (name, r, info, total, "z3")
+    r1, info1, dt = _run_z3_cli(text, quick)
     total += dt
-    if r in ("sat", "unsat"):
-        return (name, r, info, total, "z3")
+    if r1 in ("sat", "unsat"):
+        return (name, r1, info1, total, "z3cli")
     if cover:
-        return (name, r, info, total, "z3")
+        return (name, r1, info1 or info, total, "z3")
     if use_cvc5 and prefer != "cvc5":
         r2, info2, dt2 = _run_cvc5(text, timeout_ms)
         total += dt2
         if r2 in ("sat", "unsat"):
             return (name, r2, info2, total, "cvc5")
-    r3, info3, dt3 = _z3(text, timeout_ms, 0)
-    total += dt3
-    if r3 in ("sat", "unsat"):
-        return (name, r3, info3, total, "z3")
-    return (name, r, info, total, "z3+cvc5")
+    if timeout_ms > quick:
+        r3, info3, dt3 = _run_z3_cli(text, timeout_ms, 0)
+        total += dt3
+        if r3 in ("sat", "unsat"):
+            return (name, r3, info3, total, "z3cli")
+    return (name, "unknown", info1 or info, total, "z3+z3cli+cvc5")
 
 
 class Result:
